@@ -722,7 +722,17 @@ pub fn get_deposit(
     pool_deposit: &BigNum, // // protocol parameter
     key_deposit: &BigNum,  // protocol parameter
 ) -> Result<Coin, JsError> {
-    internal_get_deposit(&txbody.certs, &pool_deposit, &key_deposit)
+    let certificate_deposit = internal_get_deposit(&txbody.certs, &pool_deposit, &key_deposit)?;
+    // governance proposals lock a deposit as well (TransactionBuilder::get_deposit counts it the same way)
+    let proposal_deposit = match &txbody.voting_proposals {
+        None => BigNum::zero(),
+        Some(proposals) => proposals
+            .into_iter()
+            .try_fold(BigNum::zero(), |acc, proposal| {
+                acc.checked_add(&proposal.deposit)
+            })?,
+    };
+    certificate_deposit.checked_add(&proposal_deposit)
 }
 
 #[derive(Debug, Clone, Eq, Ord, PartialEq, PartialOrd)]
